@@ -400,13 +400,46 @@ pub fn check(thorough: bool, _seed: u64) -> Check {
             "pairs": "a in {10,1000,1e6,3,7,0.1,1e-3,123.456,-10,-0.7}; b = a -+ |a|*t, a/(1-t) (relative) or a -+ t (absolute), each also 1 and 2 ulps either side; t in {0.3,0.7,0.1,1e-6,1e-3,0.9,1.5,2.5,1e-9}; both argument orders",
             "tolerances": "relative: max_relative = t with epsilon in {0, EPSILON, 1e-12}; absolute: epsilon = t with max_relative in {0, EPSILON}"}),
     };
+    // the same special value in one position of both operands, and a small / large perturbation in another position:
+    // a special case made for one number must not change how the other numbers are compared
+    let cs5 = cs.clone();
+    let special2 = Phase {
+        name: "special-value-in-one-position-perturbation-in-another",
+        units: n,
+        split: 1,
+        body: Box::new(move |unit, cx| {
+            let c = &cs5[unit];
+            if c.n < 2 {
+                return Ok(());
+            }
+            let i = cx.choose(c.n);
+            let j = (i + 1 + cx.choose(c.n - 1)) % c.n;
+            let sv = [f64::INFINITY, f64::NEG_INFINITY, f64::NAN, f64::MAX, 0.0, -0.0, 5e-324][cx.choose(7)];
+            let a0 = base(c.n);
+            let mut a = a0.clone();
+            let mut b = a0.clone();
+            a[i] = sv;
+            b[i] = sv;
+            b[j] = a0[j] * PERT[cx.choose(3)];
+            let eps = *cx.pick(&EPS);
+            let rel = *cx.pick(&REL);
+            cx.nontrivial();
+            cx.evals(5);
+            if cx.sampling() {
+                cx.sample(json!({"type": c.ty, "a": fjs(&a), "b": fjs(&b), "epsilon": fj(eps), "max_relative": fj(rel)}));
+            }
+            (c.run)(&a, &b, eps, rel).map(|_| ()).map_err(|(what, d)| Fail::new(what, json!({"a": fjs(&a), "b": fjs(&b), "epsilon": fj(eps), "max_relative": fj(rel), "observation": d})))
+        }),
+        classes: vec![],
+        bounds: json!({"types": "every type implementing the approx traits with at least two numbers", "pairs": "position i (every) holds the same value from {+inf,-inf,NaN,MAX,0,-0.0,5e-324} in both operands; position j != i (every) is equal, perturbed inside or perturbed outside the 1e-3 tolerances", "tolerances": "every epsilon x max_relative"}),
+    };
     let mut extra = serde_json::Map::new();
     extra.insert("approx_types".into(), json!(names));
     Check {
         id: "C17",
         rule: "choice tree: type (unit) x perturbation per number x epsilon x max_relative; each leaf calls the real abs_diff_eq / relative_eq in both argument orders and ==; non-trivial = at least one number perturbed / special value / different lengths".into(),
         assumptions: vec!["approx's own f64 impls are the per-number reference".into()],
-        phases: vec![perturb, special, lengths, big, alias, boundary],
+        phases: vec![perturb, special, lengths, big, alias, boundary, special2],
         extra,
         controls: vec![],
     }
